@@ -5,7 +5,7 @@ INVARIANTS PlanOut
 CONSTANTS
   Kinds = {"token", "userpass"}
   CreateFaults = {0}
-  ReadFaults = {0, 1}
+  ReadFaults = {0, 1, 90}
   PauseFaults = {0, 1, 2}
   ResumeFaults = {0, 1, 2, 3, 99}
   DeleteFaults = {0, 1, 2, 3}
@@ -17,3 +17,6 @@ CONSTANTS
   MaskSasl = TRUE
   MaskOnReloadFail = TRUE
   NoDecodeEcho = TRUE
+  Spellings = {"canon", "mixed"}
+  MaskDecoded = TRUE
+  ReadFailIsError = TRUE
